@@ -1,4 +1,331 @@
 import BitstringModel.Model.C10
 import BitstringModel.Proofs.Basic
+import Mathlib.Tactic.Ring
 namespace BM.C10
+open BM
+
+/-- Interleave every digit with a leading "follow" bit 0. -/
+def ilv (ds : Bits) : Bits := ds.flatMap fun d => [false, d]
+
+@[simp] theorem ilv_nil : ilv [] = [] := rfl
+@[simp] theorem ilv_cons (d : Bool) (ds : Bits) : ilv (d :: ds) = false :: d :: ilv ds := rfl
+@[simp] theorem ilv_length (ds : Bits) : (ilv ds).length = 2 * ds.length := by
+  induction ds with
+  | nil => rfl
+  | cons d ds ih => simp [ih]; omega
+
+theorem readUIEAux_ilv (ds : Bits) (c k : Nat) (rest : Bits) :
+    readUIEAux (ilv ds ++ true :: rest) c k
+      = some (c * 2 ^ ds.length + bitsToNat ds, k + 2 * ds.length + 1) := by
+  induction ds generalizing c k with
+  | nil => simp [readUIEAux]
+  | cons d ds ih =>
+    simp only [ilv_cons, List.cons_append, readUIEAux]
+    rw [ih, bitsToNat_cons]
+    simp only [List.length_cons, Nat.pow_succ]
+    congr 2
+    · ring
+    · omega
+
+theorem readUIEAux_some (l : Bits) (c k c' k' : Nat) (h : readUIEAux l c k = some (c', k')) :
+    ∃ ds rest, l = ilv ds ++ true :: rest ∧ c' = c * 2 ^ ds.length + bitsToNat ds
+      ∧ k' = k + 2 * ds.length + 1 := by
+  fun_induction readUIEAux l c k with
+  | case1 => simp at h
+  | case2 t c k =>
+    simp only [Option.some.injEq, Prod.mk.injEq] at h
+    exact ⟨[], t, by simp, by simp [h.1], by simp [h.2]⟩
+  | case3 => simp at h
+  | case4 d rest c k ih =>
+    obtain ⟨ds, r, h1, h2, h3⟩ := ih h
+    refine ⟨d :: ds, r, by simp [h1], ?_, ?_⟩
+    · rw [h2, bitsToNat_cons]; simp only [List.length_cons, Nat.pow_succ]; ring
+    · rw [h3]; simp only [List.length_cons]; omega
+
+theorem readUIEAux_trunc (ds : Bits) (q : Nat) (hq : q < 2 * ds.length + 1) (c k : Nat) :
+    readUIEAux ((ilv ds ++ [true]).take q) c k = none := by
+  induction ds generalizing q c k with
+  | nil =>
+    have : q = 0 := by simpa using hq
+    subst this; simp [readUIEAux]
+  | cons d ds ih =>
+    simp only [ilv_cons, List.cons_append]
+    match q, hq with
+    | 0, _ => simp [readUIEAux]
+    | 1, _ => simp [readUIEAux]
+    | q + 2, hq =>
+      simp only [List.take_succ_cons, readUIEAux]
+      apply ih
+      simp only [List.length_cons] at hq; omega
+
+theorem uieEncodeNat_eq (n : Nat) :
+    uieEncodeNat n = ilv (natToBits (Nat.log2 (n + 1)) (n + 1)) ++ [true] := by
+  unfold uieEncodeNat
+  split
+  · next h => subst h; decide
+  · rfl
+
+theorem natToBits_add_pow (k x : Nat) : natToBits k (2 ^ k + x) = natToBits k x := by
+  have h1 := natToBits_bitsToNat (natToBits k (2 ^ k + x))
+  have h2 := natToBits_bitsToNat (natToBits k x)
+  rw [natToBits_length, bitsToNat_natToBits_mod] at h1 h2
+  rw [← h1, ← h2]; congr 1
+  simp
+
+theorem uie_codenum (n : Nat) :
+    2 ^ Nat.log2 (n + 1) + bitsToNat (natToBits (Nat.log2 (n + 1)) (n + 1)) = n + 1 := by
+  rw [bitsToNat_natToBits_mod]
+  have h1 := Nat.log2_self_le (n := n + 1) (by omega)
+  have h2 := Nat.lt_log2_self (n := n + 1)
+  rw [Nat.pow_succ] at h2
+  have : (n + 1) % 2 ^ Nat.log2 (n + 1) = n + 1 - 2 ^ Nat.log2 (n + 1) := by
+    rw [Nat.mod_eq_sub_mod h1, Nat.mod_eq_of_lt (by omega)]
+  omega
+
+theorem uie_of_digits (ds : Bits) :
+    uieEncodeNat (2 ^ ds.length + bitsToNat ds - 1) = ilv ds ++ [true] := by
+  rw [uieEncodeNat_eq]
+  have hpos : 0 < 2 ^ ds.length := Nat.two_pow_pos _
+  have hlt := bitsToNat_lt ds
+  have e : 2 ^ ds.length + bitsToNat ds - 1 + 1 = 2 ^ ds.length + bitsToNat ds := by omega
+  rw [e]
+  have hl : Nat.log2 (2 ^ ds.length + bitsToNat ds) = ds.length := by
+    rw [Nat.log2_eq_iff (by omega)]
+    rw [Nat.pow_succ]; omega
+  rw [hl, natToBits_add_pow, natToBits_bitsToNat]
+
+theorem uie_length' (n : Nat) : (uieEncodeNat n).length = 2 * Nat.log2 (n + 1) + 1 := by
+  rw [uieEncodeNat_eq]; simp
+
+theorem uie_length_pos (n : Nat) : 0 < (uieEncodeNat n).length := by
+  rw [uie_length']; omega
+
+theorem readUIE_ok_iff (b : Bits) (p v p' : Nat) :
+    readUIE b p = .ok (v, p') ↔
+      ∃ rest, b.drop p = uieEncodeNat v ++ rest ∧ p' = p + (uieEncodeNat v).length := by
+  unfold readUIE
+  constructor
+  · intro h
+    split at h
+    · simp at h
+    · next c k hc =>
+      simp only [Except.ok.injEq, Prod.mk.injEq] at h
+      obtain ⟨ds, rest, h1, h2, h3⟩ := readUIEAux_some _ _ _ _ _ hc
+      have hv : uieEncodeNat v = ilv ds ++ [true] := by
+        rw [← h.1, h2, Nat.one_mul, uie_of_digits]
+      refine ⟨rest, ?_, ?_⟩
+      · rw [h1, hv]; simp
+      · rw [← h.2, h3, hv]; simp
+  · rintro ⟨rest, h1, h2⟩
+    rw [h1, uieEncodeNat_eq, List.append_assoc, List.singleton_append, readUIEAux_ilv]
+    simp only [natToBits_length, Nat.one_mul, uie_codenum]
+    rw [h2, uie_length']
+    simp
+
+theorem readUIE_error (b : Bits) (p : Nat) (e : Err) (h : readUIE b p = .error e) : e = .read := by
+  unfold readUIE at h
+  split at h
+  · simpa using h.symm
+  · simp at h
+
+theorem sieEncode_zero : sieEncode 0 = uieEncodeNat 0 := by decide
+
+theorem sieEncode_ne (i : Int) (hi : i ≠ 0) :
+    sieEncode i = uieEncodeNat i.natAbs ++ [decide (i < 0)] := by
+  simp [sieEncode, hi]
+
+theorem sieEncode_of (c : Nat) (hc : c ≠ 0) (s : Bool) :
+    sieEncode (if s then -(c : Int) else (c : Int)) = uieEncodeNat c ++ [s] := by
+  cases s
+  · have h0 : (c : Int) ≠ 0 := by omega
+    have h2 : ¬ ((c : Int) < 0) := by omega
+    simp only [Bool.false_eq_true, if_false]
+    rw [sieEncode_ne _ h0, Int.natAbs_natCast, decide_eq_false h2]
+  · have h0 : -(c : Int) ≠ 0 := by omega
+    have h2 : (-(c : Int) < 0) := by omega
+    simp only [if_true]
+    rw [sieEncode_ne _ h0, Int.natAbs_neg, Int.natAbs_natCast, decide_eq_true h2]
+
+theorem readSIE_ok_iff (b : Bits) (p : Nat) (i : Int) (p' : Nat) :
+    readSIE b p = .ok (i, p') ↔
+      ∃ rest, b.drop p = sieEncode i ++ rest ∧ p' = p + (sieEncode i).length := by
+  unfold readSIE
+  constructor
+  · intro h
+    split at h
+    · simp at h
+    · next c p1 hc =>
+      obtain ⟨rest, h1, h2⟩ := (readUIE_ok_iff _ _ _ _).1 hc
+      split at h
+      · next hc0 =>
+        simp only [Except.ok.injEq, Prod.mk.injEq] at h
+        subst hc0
+        rw [← h.1, ← h.2, sieEncode_zero]
+        exact ⟨rest, h1, h2⟩
+      · next hc0 =>
+        split at h
+        · simp at h
+        · next s hs =>
+          simp only [Except.ok.injEq, Prod.mk.injEq] at h
+          rw [← h.1, ← h.2, sieEncode_of c hc0 s]
+          have : (b.drop p)[(uieEncodeNat c).length]? = some s := by
+            rw [List.getElem?_drop, ← h2]; exact hs
+          rw [h1, List.getElem?_append_right (Nat.le_refl _), Nat.sub_self] at this
+          cases rest with
+          | nil => simp at this
+          | cons r rest' =>
+            simp only [List.getElem?_cons_zero, Option.some.injEq] at this
+            subst this
+            refine ⟨rest', by rw [h1]; simp, by rw [h2]; simp; omega⟩
+  · rintro ⟨rest, h1, h2⟩
+    by_cases hi : i = 0
+    · subst hi
+      rw [sieEncode_zero] at h1 h2
+      rw [(readUIE_ok_iff b p 0 p').2 ⟨rest, h1, h2⟩]
+      simp
+    · rw [sieEncode_ne i hi] at h1 h2
+      rw [List.append_assoc] at h1
+      rw [(readUIE_ok_iff b p i.natAbs (p + (uieEncodeNat i.natAbs).length)).2 ⟨_, h1, rfl⟩]
+      have hne : i.natAbs ≠ 0 := by omega
+      have hs : b[p + (uieEncodeNat i.natAbs).length]? = some (decide (i < 0)) := by
+        rw [← List.getElem?_drop, h1, List.getElem?_append_right (Nat.le_refl _), Nat.sub_self]
+        simp
+      simp only [hne, if_false, hs, h2, List.length_append, List.length_cons, List.length_nil]
+      congr 2
+      by_cases hneg : i < 0 <;> simp [hneg] <;> omega
+
+theorem readSIE_error (b : Bits) (p : Nat) (e : Err) (h : readSIE b p = .error e) : e = .read := by
+  unfold readSIE at h
+  split at h
+  · next e' he =>
+    have := readUIE_error _ _ _ he
+    simp only [Except.error.injEq] at h; rw [← h, this]
+  · split at h
+    · simp at h
+    · split at h
+      · simpa using h.symm
+      · simp at h
+
+theorem readUIE_trunc (pre : Bits) (n q : Nat) (hq : q < (uieEncodeNat n).length) :
+    readUIE (pre ++ (uieEncodeNat n).take q) pre.length = .error .read := by
+  unfold readUIE
+  rw [List.drop_left']
+  · rw [uieEncodeNat_eq, readUIEAux_trunc]
+    rw [uie_length'] at hq; simpa using hq
+  · rfl
+
+theorem sie_length_pos (i : Int) : 0 < (sieEncode i).length := by
+  by_cases hi : i = 0
+  · subst hi; decide
+  · rw [sieEncode_ne i hi]; simp
+
+theorem readSIE_trunc (pre : Bits) (i : Int) (q : Nat) (hq : q < (sieEncode i).length) :
+    readSIE (pre ++ (sieEncode i).take q) pre.length = .error .read := by
+  by_cases hi : i = 0
+  · subst hi
+    rw [sieEncode_zero] at hq ⊢
+    unfold readSIE
+    rw [readUIE_trunc pre 0 q hq]
+  · rw [sieEncode_ne i hi] at hq ⊢
+    simp only [List.length_append, List.length_cons, List.length_nil] at hq
+    by_cases hlt : q < (uieEncodeNat i.natAbs).length
+    · rw [List.take_append_of_le_length (Nat.le_of_lt hlt)]
+      unfold readSIE
+      rw [readUIE_trunc pre _ q hlt]
+    · have hq' : q = (uieEncodeNat i.natAbs).length := by omega
+      rw [hq', List.take_left' rfl]
+      unfold readSIE
+      have h1 : readUIE (pre ++ uieEncodeNat i.natAbs) pre.length
+          = .ok (i.natAbs, pre.length + (uieEncodeNat i.natAbs).length) := by
+        rw [readUIE_ok_iff]
+        exact ⟨[], by rw [List.drop_left' rfl, List.append_nil], rfl⟩
+      rw [h1]
+      have hne : i.natAbs ≠ 0 := by omega
+      have hnone : (pre ++ uieEncodeNat i.natAbs)[pre.length + (uieEncodeNat i.natAbs).length]? = none := by
+        rw [List.getElem?_eq_none_iff]; simp
+      simp only [hne, if_false, hnone]
+
+theorem getUIE_iff (b : Bits) (n : Nat) : getUIE b = .ok n ↔ b = uieEncodeNat n := by
+  unfold getUIE wholeOf
+  constructor
+  · intro h
+    split at h
+    · simp at h
+    · next v p hv =>
+      split at h
+      · simp at h
+      · next hp =>
+        simp only [Except.ok.injEq] at h
+        subst h
+        obtain ⟨rest, h1, h2⟩ := (readUIE_ok_iff _ _ _ _).1 hv
+        have hl := congrArg List.length h1
+        simp only [List.drop_zero, List.length_append] at hl h1
+        have : rest = [] := List.eq_nil_of_length_eq_zero (by omega)
+        rw [h1, this, List.append_nil]
+  · intro h
+    have h1 : readUIE b 0 = .ok (n, b.length) := by
+      rw [readUIE_ok_iff]; exact ⟨[], by simp [h], by simp [h]⟩
+    rw [h1]; simp
+
+theorem getSIE_iff (b : Bits) (i : Int) : getSIE b = .ok i ↔ b = sieEncode i := by
+  unfold getSIE wholeOf
+  constructor
+  · intro h
+    split at h
+    · simp at h
+    · next v p hv =>
+      split at h
+      · simp at h
+      · next hp =>
+        simp only [Except.ok.injEq] at h
+        subst h
+        obtain ⟨rest, h1, h2⟩ := (readSIE_ok_iff _ _ _ _).1 hv
+        have hl := congrArg List.length h1
+        simp only [List.drop_zero, List.length_append] at hl h1
+        have : rest = [] := List.eq_nil_of_length_eq_zero (by omega)
+        rw [h1, this, List.append_nil]
+  · intro h
+    have h1 : readSIE b 0 = .ok (i, b.length) := by
+      rw [readSIE_ok_iff]; exact ⟨[], by simp [h], by simp [h]⟩
+    rw [h1]; simp
+
+theorem streamRead_readUIE' (b : Bits) (pos : Nat) :
+    streamRead readUIE b pos = readUIE b pos := by
+  unfold streamRead readUIE
+  simp only [List.drop_zero]
+  cases readUIEAux (b.drop pos) 1 0 with
+  | none => rfl
+  | some r => simp
+
+theorem streamRead_readSIE' (b : Bits) (pos : Nat) :
+    streamRead readSIE b pos = readSIE b pos := by
+  have hU : readUIE (b.drop pos) 0 = match readUIE b pos with
+      | .error e => .error e
+      | .ok (c, p) => .ok (c, p - pos) := by
+    unfold readUIE
+    simp only [List.drop_zero]
+    cases readUIEAux (b.drop pos) 1 0 with
+    | none => rfl
+    | some r => simp
+  have hge : ∀ c p, readUIE b pos = .ok (c, p) → pos ≤ p := by
+    intro c p h
+    obtain ⟨rest, _, h2⟩ := (readUIE_ok_iff _ _ _ _).1 h
+    omega
+  unfold streamRead readSIE
+  rw [hU]
+  cases hr : readUIE b pos with
+  | error e => simp [readUIE_error _ _ _ hr]
+  | ok r =>
+    obtain ⟨c, p⟩ := r
+    have := hge c p hr
+    simp only
+    by_cases hc : c = 0
+    · simp [hc]; omega
+    · simp only [hc, if_false, List.getElem?_drop]
+      have e : pos + (p - pos) = p := by omega
+      rw [e]
+      cases b[p]? with
+      | none => rfl
+      | some s => simp; omega
+
 end BM.C10
